@@ -8,6 +8,7 @@ Line-protocol front end of the C07 model.
 ```
 C07 coef <family> fwd|bwd <n|->     -> ok κ          exponent coefficient of the multiplier
 C07 magnify m1 m2                   -> ok w d        weight factor |m1 m2| and squared field divisor
+C07 magweights fwd|bwd m1 m2 [w]    -> ok [w']       cell areas of the returned grid: w_i·|m1 m2| (forward), w_i/|m1 m2| (backward)
 C07 magnifyold m1 m2                -> ok d | err value   (unrepaired: sqrt of the signed product)
 C07 mask fwd|bwd [E] [t] [w]        -> ok [E'] pin pout  Apodizer / any phase-only element: E·t (E·conj t), total power
                                                          before / after **with the input weights** (complex lists are flat re,im,…)
@@ -17,6 +18,8 @@ C07 powerpol tensor [t] [J…] [S] [w] | vector [t] [E…] [w] -> ok P P'   `Wav
                                                          before / after the per-pixel scalar transmission t (flat lists: 8 / 4 reals per pixel)
 C07 fibre [E] [m] [w]               -> ok [a] pin mnorm [back]   a = Σ conj(E) w m, Σ|E|²w, Σ|m|²w, power of a·m
 C07 knife N M start [mask] [apod] [lyot] [x] -> ok [row']  lyot·crop(ifft(fft(pad(x·apod))·mask)), M ∣ 4 (Gaussian kernels)
+C07 knifep N M start [mask] [apod] [lyot] [x] -> ok out=c:t,c:t;…  the same `knifeRow` at the formal phase sums (`knifeRowP`), EXACT for every
+                                                         internal length M ≤ 64: per output pixel the terms c·exp(2πi t) (pixels separated by `;`)
 C07 knifet N M start [ker] [mask] [apod] [lyot] [x] -> ok [row']  the same `knifeRow` for any M > 0, the forward kernel
                                                          `exp(-2πi k/M)`, k < M, supplied as a table (backward kernel = its conjugate)
 ```
@@ -58,6 +61,13 @@ def step (st : St) : List String → St × String
     match parseRat? m1, parseRat? m2 with
     | some a, some b => (st, s!"ok {showRat (magWeightFactor a b)} {showRat (magDivisorSq a b)}")
     | _, _ => (st, "bad-op")
+  | ["magweights", dir, m1, m2, w] =>
+    match parseRat? m1, parseRat? m2, parseRatList? w with
+    | some a, some b, some w =>
+      if (dir ≠ "fwd" ∧ dir ≠ "bwd") ∨ a = 0 ∨ b = 0 then (st, "bad-op") else
+      let out := if dir == "fwd" then magWeights a b (ratFn w) else magWeightsBack a b (ratFn w)
+      (st, "ok " ++ showRatList ((List.range w.length).map out))
+    | _, _, _ => (st, "bad-op")
   | ["magnifyold", m1, m2] =>
     match parseRat? m1, parseRat? m2 with
     | some a, some b =>
@@ -120,6 +130,14 @@ def step (st : St) : List String → St × String
       let xin : Nat → Cx Rat := fun i => cxFn x i * cxFn apod i
       let row := knifeRow n m s (gaussKerF m) (gaussKerB m) ⟨1 / (m : Rat), 0⟩ (cxFn mask) xin
       (st, "ok " ++ showRatList (flat (fun j => cxFn lyot j * row j) n))
+    | _, _, _, _, _, _, _ => (st, "bad-op")
+  | ["knifep", nn, mm, start, mask, apod, lyot, x] =>
+    match parseNat? nn, parseNat? mm, parseNat? start, parseCx? mask, parseCx? apod, parseCx? lyot, parseCx? x with
+    | some n, some m, some s, some mask, some apod, some lyot, some x =>
+      if m = 0 ∨ m > 64 ∨ s + n > m ∨ mask.length ≠ m ∨ apod.length ≠ n ∨ lyot.length ≠ n ∨ x.length ≠ n then (st, "bad-op") else
+      let showT := fun (t : Fft.Term) => if t.r == 0 then s!"{showRat t.c}:{showRat t.t}" else "?"
+      let row := (List.range n).map fun j => knifeRowP n m s (cxFn mask) (cxFn apod) (cxFn lyot) (cxFn x) j
+      (st, "ok out=" ++ ";".intercalate (row.map fun ps => ",".intercalate (ps.terms.map showT)))
     | _, _, _, _, _, _, _ => (st, "bad-op")
   | ["knifet", nn, mm, start, ker, mask, apod, lyot, x] =>
     match parseNat? nn, parseNat? mm, parseNat? start, parseCx? ker, parseCx? mask, parseCx? apod, parseCx? lyot, parseCx? x with
